@@ -4,7 +4,7 @@ MCMgrs     == {"be", "ta"}
 MCNames3   == [be |-> {"numpy", "jax", "cupy"}, ta |-> {"core", "einsum"}]
 MCNames2   == [be |-> {"numpy", "jax"}, ta |-> {"core", "einsum"}]
 MCDefault  == [be |-> "numpy", ta |-> "core"]
-MCBad      == [be |-> {"nope", "pytorch"}, ta |-> {"nope"}]
+MCBad      == [be |-> {"nope", "pytorch", "einsum", "core"}, ta |-> {"nope", "numpy", "jax"}]
 MCBad1     == [be |-> {"nope"}, ta |-> {"nope"}]
 GraphView == <<S, pc>>
 =============================================================================
